@@ -1,7 +1,7 @@
 (* C19: editing a CIF document through the DOM API keeps it rectangular and predictable.
    Statements over the reference model coq/Dom/Dom.v (tied to gemmi by harness/h_dom.cpp + extract/dom_drv.ml). *)
 From Coq Require Import ZArith List Bool.
-From GV Require Import Base.Str Dom.Dom Dom.DomProofs.
+From GV Require Import Base.Str Dom.Dom Dom.DomProofs Dom.DomSafe.
 Import ListNotations.
 
 (* Every operation -- accepted, rejected with an exception, with any arguments -- keeps every loop of
@@ -86,3 +86,18 @@ Theorem C19_remove_column_size : forall k nw p data,
   p <= nw -> length data = k * S nw -> length (remove_col nw p data) = k * nw.
 Proof. exact remove_col_length. Qed.
 Print Assumptions C19_remove_column_size.
+
+(* No dangling reference: the handle returned by find / find_any / find_or_add / find_mmcif_category
+   points at a loop item of the (possibly edited) block and all its column positions are in range. *)
+Theorem C19_table_handle_well_formed : forall items f items' t,
+  run_finder items f = (items', Some t) -> tab_wf items' t.
+Proof. exact run_finder_wf. Qed.
+Print Assumptions C19_table_handle_well_formed.
+
+(* No operation on a fresh handle reaches an undefined-behaviour outcome of the model (out-of-range
+   index, wrong item kind).  PARTIAL: ensure_loop / remove_rows are excluded, because on a pairs table
+   that names the SAME pair twice the C++ reads a destroyed item (assumption: finder tags distinct). *)
+Theorem C19_no_undefined_behaviour_partial : forall d o,
+  op_no_dup_hazard o = true -> s_st (step d o) <> SUB.
+Proof. exact step_no_ub. Qed.
+Print Assumptions C19_no_undefined_behaviour_partial.
